@@ -7,7 +7,7 @@ def repo_commits():
     out = subprocess.run(["git", "-C", "/repo", "log", "--format=%H %s"], capture_output=True, text=True).stdout
     return [l.split()[0] for l in out.splitlines() if l.split(" ", 1)[1].startswith("verif hook")]
 
-A_NOTE = ("Trusted: the fold definitions of 'held on the physical/virtual keyboard', the harness PRNG/scheduler, and - where the oracle uses the words "
+A_NOTE = ("Also checked end to end (world E, except C06/C09): the same oracle on the outputs the real loop wrote per delivered key event when evdev bytes -> real reader -> RealDriver -> real loop -> real writer -> uinput bytes runs on pipes. Trusted: the fold definitions of 'held on the physical/virtual keyboard', the harness PRNG/scheduler, and - where the oracle uses the words "
           "'fires'/'in effect' - the ~60-line reference control model R (sim/src/refmodel.rs). Real code: Mapper::for_layout/step/release_all, "
           "the JSON parser and the converter (every layout is loaded through them). Sampled, not enumerated.")
 B_NOTE = ("Trusted: the simulated driver (edge-triggered readiness, discrete-event clock) and RefLoop (sim/src/loopsim.rs), which replays the recorded "
@@ -87,7 +87,7 @@ def main():
         },
         "engines": [{
             "name": "sim", "path": "/verif/sim", "serves_properties": sorted(CHECKS),
-            "kind_free_text": "single-process deterministic simulator (Rust): seeded scheduler of key actors / device arrivals, simulated driver+clock for the real event loop, pipe-backed byte layer, faulted layout store; reference models as oracles; replay files with minimised cases",
+            "kind_free_text": "single-process deterministic simulator (Rust): seeded scheduler of key actors / device arrivals, simulated driver+clock for the real event loop, pipe-backed byte layer under the shipped RealDriver, end-to-end world (bytes -> reader -> loop -> writer -> bytes), faulted layout store; reference models as oracles; replay files with minimised cases",
         }],
         "checks": checks,
         "not_applicable": na,
